@@ -122,11 +122,14 @@ func PrepareC07(ctx *Ctx) (*Prepared, error) {
 	// the decoders of string-bearing records are also run as generated with
 	// SharedMemoryStrings (the only option that changes decoding code)
 	shared := OptSet{Name: "shared", Unsafe: true, Shared: true}
-	return prepareCodec(ctx, codecSpec{profile: "lite", perJob: 1, harnesses: []string{"VH_C07", "VH_C07W"},
+	return prepareCodec(ctx, codecSpec{profile: "lite", perJob: 3, harnesses: []string{"VH_C07", "VH_C07W"},
 		opts: []OptSet{BaseOpts, shared},
 		optFilter: func(p *corpus.Pkg, o OptSet) bool {
 			if !o.Shared {
 				return true
+			}
+			if ctx.Tier != "thorough" && !(p.Ctor == "T" || p.Ctor == "T[]" || strings.Contains(p.Ctor, "string")) {
+				return false // quick tier: plain fields, arrays and string-keyed maps
 			}
 			switch p.Leaf {
 			case "string", "StrS", "Msg", "RO", "Uni":
